@@ -442,8 +442,9 @@ def reloctwins(cfg=None, reopen_ok=False):
     is relocated) - the second and third X take the first one's names (`reuse`).  Files inside each, then edits."""
     c = cfg if cfg is not None else cfg_st(rr=st.sampled_from(['1.09', '1.10', '1.12']), level=st.sampled_from([1, 2, 3, 3]))
 
-    def build(chain, g, x, fx, h, x2, fx2, third, tail):
-        ops = [dict(o, d=-1, reuse=0) for o in chain]
+    def build(chain, g, x, fx, h, x2, fx2, third, tail, custom=None):
+        ops = [custom] if custom else []      # optionally a relocation directory with a name of the user's choice
+        ops += [dict(o, d=-1, reuse=0) for o in chain]
         ops.append(dict(g, d=-1, reuse=0))          # G, depth 7
         ops.append(dict(x, d=-1, reuse=0))          # G/X, depth 8: relocated
         ops.append(dict(fx, d=-1))
@@ -459,7 +460,8 @@ def reloctwins(cfg=None, reopen_ok=False):
     tail_choices = [rm_file, rm_dir, rm_dir, add_fp(d=I, length=SMALL_LEN), add_sym, query, write, hide, add_dir(d=I)]
     if reopen_ok:
         tail_choices += [reopen, reopen]
-    return program(c, st.builds(build, st.lists(D, min_size=6, max_size=6), D, D, F, D, D, F, st.booleans(), st.lists(st.one_of(*tail_choices), min_size=0, max_size=10)))
+    return program(c, st.builds(build, st.lists(D, min_size=6, max_size=6), D, D, F, D, D, F, st.booleans(), st.lists(st.one_of(*tail_choices), min_size=0, max_size=10),
+                                st.one_of(st.none(), st.none(), set_reloc)))
 
 
 def readd(cfg=None, reopen_ok=False):
